@@ -458,6 +458,42 @@ Proof.
 Qed.
 Corollary C01_reparse : forall ts e, compile ts = Ok e -> compile (render_min e) = Ok e /\ compile (render_full e) = Ok e.
 Proof. intros ts e _. apply C01_render_functions_roundtrip. Qed.
+(* ---- the tokens that open a nested call ---- *)
+Definition cntt (t:token) : nat := match t with LParen | LBracket | TNot | TBin Minus => 1 | _ => 0 end.
+Fixpoint cnt (ts:list token) : nat := match ts with [] => 0 | t :: r => cntt t + cnt r end.
+Lemma chomp_cnt e ts r : chomp e ts = Ok r -> cnt r <= cnt ts.
+Proof. destruct ts as [|x t]; cbn; [discriminate|]. destruct (is_end e x); [|discriminate]. intros H; injection H as ->. lia. Qed.
+Lemma comma_cnt (s:list token) : cnt (match s with Comma :: s' => s' | s' => s' end) <= cnt s.
+Proof. destruct s as [|c s']; [cbn; lia|]. destruct c; cbn; lia. Qed.
+
+Lemma cnt_mono : forall n,
+  (forall p ts x, parse_prec n p ts = Ok x -> cnt (snd x) <= cnt ts) /\
+  (forall p l ts x, loop n p l ts = Ok x -> cnt (snd x) <= cnt ts) /\
+  (forall e ts acc x, elist n e ts acc = Ok x -> cnt (snd x) <= cnt ts).
+Proof.
+  induction n as [|n (IHp & IHl & IHe)].
+  - repeat split; intros; cbn in *; discriminate.
+  - repeat split.
+    + intros p ts x H. cbn [parse_prec] in H. destruct ts as [|t ts1]; [discriminate|].
+      match type of H with bind ?pr _ = _ => destruct pr as [pr0|] eqn:E; [|discriminate] end. cbn [bind] in H. apply IHl in H.
+      assert (cnt (snd pr0) <= cnt ts1).
+      { destruct t; try discriminate.
+        - destruct ts1 as [|t2 ts2]; [discriminate|]. destruct (parse_prec n POr (t2 :: ts2)) as [r|] eqn:E1; cbn [bind] in E; [|discriminate].
+          destruct (chomp RParen (snd r)) as [s2|] eqn:C; [|discriminate]. cbn [bind] in E. injection E as <-. cbn [snd]. apply IHp in E1. apply chomp_cnt in C. lia.
+        - destruct (elist n RBracket ts1 []) as [r|] eqn:E1; cbn [bind] in E; [|discriminate]. injection E as <-. cbn [snd]. apply IHe in E1. exact E1.
+        - destruct b; try discriminate. destruct (parse_prec n PUnary ts1) as [r|] eqn:E1; cbn [bind] in E; [|discriminate]. injection E as <-. cbn [snd]. apply IHp in E1. exact E1.
+        - destruct (parse_prec n PUnary ts1) as [r|] eqn:E1; cbn [bind] in E; [|discriminate]. injection E as <-. cbn [snd]. apply IHp in E1. exact E1.
+        - injection E as <-. cbn [snd]. lia.
+        - injection E as <-. cbn [snd]. lia. }
+      cbn [cnt]. lia.
+    + intros p l ts x H. cbn [loop] in H. destruct ts as [|t ts1]; [injection H as <-; cbn; lia|].
+      destruct (ple p (tprec t)); [|injection H as <-; cbn [snd]; lia]. destruct t; try discriminate.
+      * destruct l; try discriminate. destruct (elist n RParen ts1 []) as [r|] eqn:E; [|discriminate]. cbn [bind] in H. apply IHe in E. apply IHl in H. cbn [cnt]. lia.
+      * destruct (parse_prec n (pnext (bprec b)) ts1) as [r|] eqn:E; [|discriminate]. cbn [bind] in H. apply IHp in E. apply IHl in H. cbn [cnt]. lia.
+    + intros e ts acc x H. cbn [elist] in H. destruct ts as [|t ts1]; [discriminate|]. destruct (is_end e t).
+      * destruct (chomp e (t :: ts1)) as [s|] eqn:C; [|discriminate]. cbn [bind] in H. injection H as <-. cbn [snd]. apply chomp_cnt in C. exact C.
+      * destruct (parse_prec n POr (t :: ts1)) as [r|] eqn:E; [|discriminate]. cbn [bind] in H. apply IHp in E. apply IHe in H. destruct (snd r) as [|c s']; [cbn [cnt] in *; lia|]. destruct c; cbn [cnt cntt] in *; lia.
+Qed.
 End Pratt.
 Arguments LParen {LitT IdT}. Arguments RParen {LitT IdT}. Arguments LBracket {LitT IdT}. Arguments RBracket {LitT IdT}. Arguments Comma {LitT IdT}.
 Arguments TBin {LitT IdT}. Arguments TNot {LitT IdT}. Arguments TLit {LitT IdT}. Arguments TId {LitT IdT}.
